@@ -298,7 +298,13 @@ func build(ctx context.Context, s *Stage, ins []chan int, c *calls) []output {
 	case "fold":
 		return []output{outInt(pipe.Fold(ctx, roIns[0], s.monoid()))}
 	case "join":
-		return []output{outInt(pipe.Join(ctx, roIns...))}
+		// the caller may reuse the slice it spreads into the variadic parameter as soon as Join has returned
+		args := append([]<-chan int(nil), roIns...)
+		o := pipe.Join(ctx, args...)
+		for i := range args {
+			args[i] = nil
+		}
+		return []output{outInt(o)}
 	case "unfold":
 		o, e := pipe.Unfold(ctx, s.N, s.Seed, lift(s.eitherE(c)))
 		return []output{outInt(o), outErr(e)}
